@@ -137,6 +137,27 @@ def replay_process(model, obligation):
     return dict(confirmed=False)
 
 
+def stream_state(repo):
+    """tnet_from keeps the state of one stream (its receive buffer, its parser data) in objects made per call: no default argument is an object built
+    once at definition time.  Decided on the AST."""
+    from . import frames
+    mod, cls, fdef = repo.find_function('server/tnet.py', 'tnet_from')
+    shared = frames.shared_defaults(fdef)
+    v = z3.Int('defaults_built_once')
+    return [('tnet_from has no default argument built once and shared between streams', [v == len(shared)], v == 0)]
+
+
+def replay_stream_state(model, obligation):
+    from cpppo.server import tnetstrings
+    first = tnetstrings.dump(b'ab') + b'\n' + tnetstrings.dump(b'cd') + b'\n' + tnetstrings.dump(7) + b'\n'
+    got1 = tnet_from_stream([first], take=1)
+    got2 = tnet_from_stream([tnetstrings.dump(333) + b'\n'], drop_none=True)
+    if got2 != [333]:
+        return dict(confirmed=True, function='cpppo.server.tnet.tnet_from', input='a stream abandoned after one of three messages, then a new stream sending 3:333#',
+                    observed='the new stream yields %r' % (got2,), required='[333]')
+    return dict(confirmed=False)
+
+
 def process_spec():
     def stored(pe, d):
         from pyvc.vals import RefV
@@ -570,7 +591,7 @@ def roundtrip(repo):
 
 
 def contracts(repo):
-    return [parse_payload_spec()] + dump_specs() + list_specs() + dict_specs() + dump_dispatch_specs() + [parse_spec(), process_spec(), Custom('roundtrip', roundtrip, note='composition lemmas')]
+    return [parse_payload_spec()] + dump_specs() + list_specs() + dict_specs() + dump_dispatch_specs() + [parse_spec(), process_spec(), Custom('stream_state', stream_state, replay=replay_stream_state, targets=[('server/tnet.py', 'tnet_from')], note='AST-decided: no default argument of tnet_from is an object built once'), Custom('roundtrip', roundtrip, note='composition lemmas')]
 
 
 LEVEL_TEXT = ('Deductive proof on the real server/tnetstrings.py. Scalars: parse_payload extracts exactly payload, type byte and rest from '
@@ -749,6 +770,16 @@ def bounded(tier, seed):
             violations.append(dict(key='tnet_from: a block of %d bytes (%d messages), a pause, then two more messages' % (len(head), len(first)),
                                    observed=repr([x if not isinstance(x, (bytes, bytearray)) or len(x) < 12 else '<%d bytes>' % len(x) for x in got])[:300],
                                    required='the %d messages sent, in order' % len(items)))
+    # streams are independent: a stream abandoned with messages still buffered, or ended by malformed data, leaves nothing behind for the next one
+    for label, first, take in (('abandoned after one of three messages', tnetstrings.dump(b'ab') + b'\n' + tnetstrings.dump(b'cd') + b'\n' + tnetstrings.dump(7) + b'\n', 1),
+                               ('ended by malformed data', tnetstrings.dump(b'ab') + b'\n' + b'9:abc', 5), ('consumed to its end', tnetstrings.dump(1) + b'\n', 5)):
+        ev += 1
+        distinct.add(('two-streams', label))
+        got1 = tnet_from_stream([first], take=take)
+        got2 = tnet_from_stream([tnetstrings.dump(333) + b'\n'], drop_none=True)
+        if got2 != [333] and len(violations) < 8:
+            violations.append(dict(key='tnet_from on a new connection after a stream %s' % label, observed='first stream %r, new stream %r' % (got1, got2),
+                                   required='the new stream yields exactly its own message [333]'))
     # text below containers with an encoding other than the default
     for enc in ('latin-1', 'utf-16-le', 'cp1252'):
         for v in ({'k': u'\xe9t\xe9'}, [u'\xe9', {'a': {'b': u'na\xefve'}}], {'x': [u'\xfc', 1, None]}, u'\xe9'):
@@ -767,7 +798,7 @@ def bounded(tier, seed):
                 rule='(a) seeded values (ints incl. > 64 bit, bools, None, bytes that look like prefixes/colons/type tags, multi-byte text, floats, nested lists and '
                      'string-keyed dicts to depth 3) x following data: parse(dump(v) + rest) == (v, rest) with equal types; (b) the real tnet_machine fed like '
                      'tnet_from for the types it supports, every two-way split and byte-at-a-time, followed by further data: same payload, terminal, '
-                     'source.sent == len(dump(v)); (c) the real tnet_from loop on a socket pair: messages separated by one, two or three newlines (payloads containing newlines at every position) in one chunk and two-way splits: the same payloads; a slow sender (receive timeouts inside a message, next block starting with a payload newline); blocks of exactly 4095/4096/4097/8192/12288 bytes followed by a pause; text below containers with latin-1 / utf-16-le / cp1252; distinct = distinct values / (value, chunking)',
+                     'source.sent == len(dump(v)); (c) the real tnet_from loop on a socket pair: messages separated by one, two or three newlines (payloads containing newlines at every position) in one chunk and two-way splits: the same payloads; a slow sender (receive timeouts inside a message, next block starting with a payload newline); blocks of exactly 4095/4096/4097/8192/12288 bytes followed by a pause; a new stream after one that was abandoned with buffered messages / ended by malformed data; text below containers with latin-1 / utf-16-le / cp1252; distinct = distinct values / (value, chunking)',
                 exhaustive=False, samples=samples, violations=violations[:20], seed=seed)
 
 
@@ -789,7 +820,7 @@ def replay_tnet(model, obligation):
     return dict(confirmed=False)
 
 
-def tnet_from_stream(chunks, gap=0.01, timeout=1.0, drop_none=False):
+def tnet_from_stream(chunks, gap=0.01, timeout=1.0, drop_none=False, take=None):
     """the real tnet.tnet_from receive loop on a socket pair fed the given chunks; returns the yielded payloads"""
     import socket
     import threading
@@ -813,7 +844,7 @@ def tnet_from_stream(chunks, gap=0.01, timeout=1.0, drop_none=False):
             if v is None and drop_none:
                 continue              # the marker of a receive timeout (the caller sends no null messages in this mode)
             out.append(v)
-            if len(out) > 50:
+            if len(out) > 50 or (take is not None and len(out) >= take):
                 break
     except Exception as e:
         out.append('raised %s' % type(e).__name__)
